@@ -538,8 +538,38 @@ def construction(rep, rnd, tier):
             return
 
 
+def ruler_histories(rep, rnd, tier):
+    """one long-lived Ruler (rule ids that may be prefixes of one another: then the first in list order wins) asked about SCHC packets of
+    every length in any order -- packets shorter than the longest id, packets whose stored bytes coincide though their lengths differ,
+    either padding side: each answer must be the one a fresh Ruler gives"""
+    from gens import no_compression_rule
+    for h in range(40 if tier == 'quick' else 400):
+        base = randbits(rnd, rnd.randint(1, 3))
+        ids = [base + randbits(rnd, k) for k in rnd.sample([0, 1, 2, 3, 5, 8], rnd.randint(2, 4))]
+        rnd.shuffle(ids)
+        rules = [no_compression_rule(i_, rnd.choice([L, R])) for i_ in ids]
+        ruler = Ruler(rules)
+        for step in range(14):
+            i_ = rnd.choice(ids)
+            s_ = (i_ + randbits(rnd, rnd.choice([0, 0, 1, 4, 12])))[:rnd.choice([len(i_), len(i_) + 1, max(1, len(i_) - 1), 2, 3, 4, 16])] if rnd.random() < 0.8 else randbits(rnd, rnd.randint(0, 12))
+            sd_ = rnd.choice([L, R])
+
+            def ask(r_):
+                x = r_.match_schc_packet(mk(s_, sd_))
+                return [k for k, y in enumerate(rules) if y is x][0]
+            o1 = impl_outcome(lambda: ask(ruler))
+            o2 = impl_outcome(lambda: ask(Ruler(rules)))
+            rep.count('ruler-history', key=('rh', h, step))
+            rep.oracle_evals += 1
+            if o1 != o2:
+                rep.violation('property', 'long-lived Ruler over ids %s, step %d, packet %r: it answers %s, a fresh Ruler %s' % (ids, step, s_, o1, o2),
+                              dict(layer='history', op='ruler-history', ids=ids, step=step, schc=s_))
+                return
+
+
 def run(rep, tier, seed):
     tables0 = module_tables()
+    ruler_histories(rep, rng_for(seed, 'C16-ruler'), tier)
     construction(rep, rng_for(seed, 'C16-construction'), tier)
     bc.run_family(rep, 'C16', tier, seed)
     import bufheap
